@@ -40,7 +40,7 @@ OBLIGATIONS = {"mode:plain": 20, "mode:zip-x.csv": 20, "mode:zip-x.zip": 20,
                "col:float": 50, "col:int": 50, "col:text": 50, "fmt:%0.5f": 20,
                "fmt:%0.2f": 10, "fmt:%0.10e": 10, "fmt:None": 10, "comments": 100,
                "comment:colon": 20, "comment:hash": 10, "comment:dashes": 3,
-               "sysinfo:on": 20, "sysinfo:off": 20, "archive:multi-member": 20, "stale-sibling": 5}
+               "sysinfo:on": 20, "sysinfo:off": 20, "archive:multi-member": 20, "stale-sibling": 5, "overwrite": 20}
 RESERVED = {"nrow", "ncol", "time_generated", "author", "source_file", "work_dir",
             "python_version", "pandas_version", "numpy_version", "python_inc",
             "python_lib", "comment", "python_environment"}
@@ -218,6 +218,17 @@ def run_case(ctx, case):
                 except Exception as e:
                     ctx.check("write.runs", False, "write_csv|raises|archive-multi",
                               case, {"exc": repr(e), "member": oname})
+        overwritten = False
+        if archive is None and ctx.evaluations % 3 == 0:
+            # an earlier version of the same file (more rows, other columns, other
+            # comments) is overwritten by the write under test
+            ctx.tag("overwrite")
+            overwritten = True
+            old2 = pd.DataFrame({"older": np.arange(len(df) + 5.0), "z": "t"})
+            with warnings.catch_warnings():
+                warnings.simplefilter("ignore")
+                csv.write_csv(old2, fname, {"which": "older", "zzz": "1"}, src,
+                              write_sys_info=False, **kw)
         ctx.api("write_csv")
         with warnings.catch_warnings():
             warnings.simplefilter("ignore")
@@ -230,8 +241,8 @@ def run_case(ctx, case):
                           {"exc": repr(e)})
                 return
         produced = sorted(p.name for p in wd.iterdir() if p.name != "script.py")
-        if mode == "plain" and "which" not in comments:
-            comments_absent = ["which"]
+        if (mode == "plain" or overwritten) and "which" not in comments:
+            comments_absent = ["which"] + (["zzz"] if "zzz" not in comments else [])
         else:
             comments_absent = []
         members = {}
